@@ -97,8 +97,61 @@ func (f *faultStore) Set(k kvstore.Key, v kvstore.Value) error {
 		return errKV
 	}
 	*f.trace = append(*f.trace, "S")
+	err := f.KVStore.Set(k, v)
+	// the buffer belongs to the caller again once Set has returned: a store must not keep it
+	scribble(v)
 
-	return f.KVStore.Set(k, v)
+	return err
+}
+
+func scribble(b []byte) {
+	for i := range b {
+		b[i] = 0xEE
+	}
+}
+
+func (f *faultStore) IterateKeys(prefix kvstore.KeyPrefix, consumer kvstore.IteratorKeyConsumerFunc, dir ...kvstore.IterDirection) error {
+	if f.hit("I") {
+		return errKV
+	}
+	delivered, failed := 0, false
+	err := f.KVStore.IterateKeys(prefix, func(k kvstore.Key) bool {
+		if delivered == f.kvAfter {
+			failed = true
+
+			return false
+		}
+		delivered++
+
+		return consumer(k)
+	}, dir...)
+	if failed {
+		*f.trace = append(*f.trace, "I!")
+		*f.anyFail = true
+
+		return errKV
+	}
+	*f.trace = append(*f.trace, "I")
+
+	return err
+}
+
+func (f *faultStore) DeletePrefix(prefix kvstore.KeyPrefix) error {
+	if f.hit("P") {
+		return errKV
+	}
+	*f.trace = append(*f.trace, "P")
+
+	return f.KVStore.DeletePrefix(prefix)
+}
+
+func (f *faultStore) Clear() error {
+	if f.hit("Z") {
+		return errKV
+	}
+	*f.trace = append(*f.trace, "Z")
+
+	return f.KVStore.Clear()
 }
 
 func (f *faultStore) Delete(k kvstore.Key) error {
@@ -138,6 +191,63 @@ func (f *faultStore) Iterate(prefix kvstore.KeyPrefix, consumer kvstore.Iterator
 
 // ---------------------------------------------------------------------------------------------
 // codecs
+
+// codecBufs is the codec flavour of a world: allocating encoders, or allocation-free ones that encode into one
+// scratch buffer per codec (reused by the next call and scribbled over after every operation) with decoders that
+// treat their input as theirs (they scribble over it after reading).  A store that keeps a slice it was handed, or
+// hands out its own, shows up in the raw bytes compared after every step.
+type codecBufs struct {
+	scratch bool
+	val     [8]byte
+	key     [2]byte
+}
+
+func (c *codecBufs) encVal(v uint64) []byte {
+	if !c.scratch {
+		return encU64(v)
+	}
+	binary.BigEndian.PutUint64(c.val[:], v)
+
+	return c.val[:]
+}
+
+func (c *codecBufs) encKey(k uint16) ([]byte, bool) {
+	b, ok := encU16(k)
+	if !ok || !c.scratch {
+		return b, ok
+	}
+	copy(c.key[:], b)
+
+	return c.key[:], true
+}
+
+// consumed: a decoder is done with its input.
+func (c *codecBufs) consumed(in []byte) {
+	if c.scratch {
+		scribble(in)
+	}
+}
+
+// opDone: the operation returned; whatever it encoded into the scratch buffers is garbage now.
+func (c *codecBufs) opDone() {
+	if c.scratch {
+		scribble(c.val[:])
+		scribble(c.key[:])
+	}
+}
+
+func (c *codecBufs) setFlavour(name string) string {
+	switch name {
+	case "scratch":
+		c.scratch = true
+	case "alloc":
+		c.scratch = false
+	default:
+		return "bad-op"
+	}
+
+	return "ok"
+}
 
 func encU64(v uint64) []byte {
 	b := make([]byte, 8)
@@ -214,6 +324,7 @@ type tvWorld struct {
 	initRaw  []byte
 	initHas  bool
 	fnResult string // what the compute function of the current op answered: "", "ok", "nc", "fail"
+	bufs     codecBufs
 }
 
 func newTVWorld() *tvWorld {
@@ -235,10 +346,11 @@ func (w *tvWorld) open() {
 			}
 			w.trace = append(w.trace, "E")
 
-			return encU64(v), nil
+			return w.bufs.encVal(v), nil
 		},
 		func(b []byte) (uint64, int, error) {
 			v, ok := decU64(b)
+			w.bufs.consumed(b)
 			if w.flt.dec || !ok {
 				w.trace = append(w.trace, "D!")
 				w.anyFail = true
@@ -433,6 +545,8 @@ func traceStr(t []string) string {
 func (w *tvWorld) exec(r *hx.Run, f []string) string {
 	op := strings.Join(f, " ")
 	switch f[0] {
+	case "codec":
+		return w.bufs.setFlavour(f[1])
 	case "init":
 		w.base.Delete(tvKey)
 		w.initHas, w.initRaw = false, nil
@@ -550,6 +664,7 @@ func (w *tvWorld) exec(r *hx.Run, f []string) string {
 	if out == "bad-op" {
 		return out
 	}
+	w.bufs.opDone()
 	rawAfter, hasAfter := w.raw()
 	cvAfter, chAfter := w.cache()
 	faultTok := f[len(f)-1]
@@ -682,6 +797,7 @@ type tsWorld struct {
 	anyFail  bool
 	firstErr string
 	mirror   map[string][]byte // the oracle's own idea of the raw store
+	bufs     codecBufs
 }
 
 func (w *tsWorld) failed(letter, kind string) {
@@ -697,7 +813,7 @@ func newTSWorld() *tsWorld {
 	w.fs = &faultStore{KVStore: w.base, trace: &w.trace, anyFail: &w.anyFail, kvAfter: -1}
 	w.ts = kvstore.NewTypedStore[uint16, uint64](w.fs,
 		func(k uint16) ([]byte, error) {
-			b, ok := encU16(k)
+			b, ok := w.bufs.encKey(k)
 			if w.flt.encK || !ok {
 				w.failed("k", "err:enck")
 
@@ -711,6 +827,7 @@ func newTSWorld() *tsWorld {
 			pos := w.decCalls
 			w.decCalls++
 			k, ok := decU16(b)
+			w.bufs.consumed(b)
 			if w.flt.dec[pos] || !ok {
 				w.failed("K", "err:deck")
 
@@ -728,12 +845,13 @@ func newTSWorld() *tsWorld {
 			}
 			w.trace = append(w.trace, "v")
 
-			return encU64(v), nil
+			return w.bufs.encVal(v), nil
 		},
 		func(b []byte) (uint64, int, error) {
 			pos := w.decCalls
 			w.decCalls++
 			v, ok := decU64(b)
+			w.bufs.consumed(b)
 			if w.flt.dec[pos] || !ok {
 				w.failed("V", "err:decv")
 
@@ -826,9 +944,46 @@ func (w *tsWorld) expectIterate(prefix []byte, bwd bool, stop int, flt tsFaults)
 	return "iter ok " + showPairs(got)
 }
 
+// expectIterateKeys: the oracle's own reading of IterateKeys (entry i makes decode call i).
+func (w *tsWorld) expectIterateKeys(prefix []byte, bwd bool, stop int, flt tsFaults) string {
+	if flt.kv1 {
+		return "iterk err:kv []"
+	}
+	keys := make([]string, 0, len(w.mirror))
+	for k := range w.mirror {
+		if strings.HasPrefix(k, string(prefix)) {
+			keys = append(keys, k)
+		}
+	}
+	sort.Strings(keys)
+	if bwd {
+		for i, j := 0, len(keys)-1; i < j; i, j = i+1, j-1 {
+			keys[i], keys[j] = keys[j], keys[i]
+		}
+	}
+	var got []string
+	for i, k := range keys {
+		if i == flt.kvAfter {
+			return "iterk err:kv [" + strings.Join(got, " ") + "]"
+		}
+		kd, ok := decU16([]byte(k))
+		if !ok || flt.dec[i] {
+			return "iterk err:deck [" + strings.Join(got, " ") + "]"
+		}
+		got = append(got, strconv.Itoa(int(kd)))
+		if len(got) == stop {
+			break
+		}
+	}
+
+	return "iterk ok [" + strings.Join(got, " ") + "]"
+}
+
 func (w *tsWorld) exec(r *hx.Run, f []string) string {
 	op := strings.Join(f, " ")
 	switch f[0] {
+	case "codec":
+		return w.bufs.setFlavour(f[1])
 	case "rawset":
 		k, v := hx.UnHex(f[1]), hx.UnHex(f[2])
 		w.base.Set(k, v)
@@ -934,6 +1089,55 @@ func (w *tsWorld) exec(r *hx.Run, f []string) string {
 				r.Fail("store-iterate", fmt.Sprintf("%s on %s returned %q, iterating the raw entries under the codecs up to the first decode error gives %q", op, before, out, expect),
 					map[string]string{"oracle": "iterate-differs", "api": api, "faults": f[4]})
 			}
+		case "iterk":
+			prefix := hx.UnHex(f[1])
+			stop, _ := strconv.Atoi(f[3])
+			var got []string
+			cb := func(k uint16) bool {
+				got = append(got, strconv.Itoa(int(k)))
+				if len(got) == stop {
+					w.trace = append(w.trace, "c~")
+
+					return false
+				}
+				w.trace = append(w.trace, "c")
+
+				return true
+			}
+			if f[2] == "bwd" {
+				err = w.ts.IterateKeys(prefix, cb, kvstore.IterDirectionBackward)
+			} else {
+				err = w.ts.IterateKeys(prefix, cb)
+			}
+			st := "ok"
+			if err != nil {
+				st = errKind(err)
+			}
+			out = fmt.Sprintf("iterk %s [%s]", st, strings.Join(got, " "))
+			expect = w.expectIterateKeys(prefix, f[2] == "bwd", stop, flt)
+			if out != expect {
+				r.Fail("store-iterate", fmt.Sprintf("%s on %s returned %q, iterating the raw keys under the codec up to the first decode error gives %q", op, before, out, expect),
+					map[string]string{"oracle": "iterate-differs", "api": api, "faults": f[4]})
+			}
+		case "delp":
+			prefix := hx.UnHex(f[1])
+			err = w.ts.DeletePrefix(prefix)
+			if err == nil {
+				out = "ok"
+				for k := range w.mirror {
+					if strings.HasPrefix(k, string(prefix)) {
+						delete(w.mirror, k)
+					}
+				}
+			}
+			expect = "ok"
+		case "clear":
+			err = w.ts.Clear()
+			if err == nil {
+				out = "ok"
+				w.mirror = map[string][]byte{}
+			}
+			expect = "ok"
 		default:
 			out = "bad-op"
 		}
@@ -941,14 +1145,16 @@ func (w *tsWorld) exec(r *hx.Run, f []string) string {
 	if out == "bad-op" {
 		return out
 	}
+	isIter := f[0] == "iter" || f[0] == "iterk"
 	if pan != "" {
 		out = "panic"
 		r.Fail("no-panic", fmt.Sprintf("%s panicked: %s", op, pan), map[string]string{"oracle": "panic", "api": api})
-	} else if err != nil && f[0] != "iter" {
+	} else if err != nil && !isIter {
 		out = errKind(err)
 	}
+	w.bufs.opDone()
 	after := w.dump()
-	isErr := strings.HasPrefix(out, "err:") || strings.HasPrefix(out, "iter err:")
+	isErr := strings.HasPrefix(out, "err:") || strings.HasPrefix(out, "iter err:") || strings.HasPrefix(out, "iterk err:")
 	if w.anyFail && !isErr {
 		r.Fail("failure-reported", fmt.Sprintf("%s: a call failed (%s) but the method returned %q; calls=%s", op, w.firstErr, out, traceStr(w.trace)),
 			map[string]string{"oracle": "swallowed-error", "api": api, "failed_call": w.firstErr})
@@ -957,7 +1163,7 @@ func (w *tsWorld) exec(r *hx.Run, f []string) string {
 		r.Fail("failure-reported", fmt.Sprintf("%s: returned %s although no call failed; calls=%s", op, out, traceStr(w.trace)),
 			map[string]string{"oracle": "spurious-error", "api": api})
 	}
-	if w.anyFail && isErr && f[0] != "iter" && w.firstErr != "" && out != w.firstErr {
+	if w.anyFail && isErr && !isIter && w.firstErr != "" && out != w.firstErr {
 		r.Fail("failure-reported", fmt.Sprintf("%s: the failed call was %s but %s was returned", op, w.firstErr, out),
 			map[string]string{"oracle": "wrong-error", "api": api})
 	}
@@ -969,7 +1175,7 @@ func (w *tsWorld) exec(r *hx.Run, f []string) string {
 		r.Fail("stored-is-last-written", fmt.Sprintf("after %s (%s): store=%s, the successful writes make it %s", op, out, after, w.mirrorDump()),
 			map[string]string{"oracle": "stored-differs", "api": api, "calls": traceStr(w.trace)})
 	}
-	if !w.anyFail && !isErr && pan == "" && expect != "" && f[0] != "iter" && out != expect {
+	if !w.anyFail && !isErr && pan == "" && expect != "" && !isIter && out != expect {
 		r.Fail("transparent", fmt.Sprintf("%s on %s returned %q, the raw store under the codecs gives %q", op, before, out, expect),
 			map[string]string{"oracle": "result-differs", "api": api})
 	}
@@ -1018,7 +1224,7 @@ func (w *world) exec(r *hx.Run, line string) string {
 // faultTok returns the fault token of an op line with positions stripped ("dec@3+4" -> "dec@").
 func faultTok(f []string) (string, bool) {
 	switch f[1] {
-	case "init", "reopen", "rawset", "rawdel", "mut":
+	case "init", "reopen", "rawset", "rawdel", "mut", "codec":
 		return "", false
 	}
 	ft := f[len(f)-1]
